@@ -36,7 +36,7 @@ struct Ctl {
     started: Vec<MerkleHash>,
     returned: Vec<(MerkleHash, bool)>,
     /// the store's own ledger: byte count each successful put returned, (length, accepted?) of every upload_shard call
-    put_sizes: HashMap<MerkleHash, usize>,
+    put_sizes: Vec<(MerkleHash, usize)>,
     shard_log: Vec<(usize, bool)>,
     shard_calls: usize,
     fail_shard: Option<usize>,
@@ -64,7 +64,7 @@ impl UploadClient for FaultClient {
         let (m, cv) = &*self.ctl;
         let mut g = m.lock().unwrap();
         g.returned.push((h, r.is_ok()));
-        if let Ok(n) = &r { g.put_sizes.insert(h, *n); }
+        if let Ok(n) = &r { g.put_sizes.push((h, *n)); }
         g.order.push(format!("put-end {} {}", h.hex(), r.is_ok()));
         cv.notify_all();
         r
@@ -216,7 +216,7 @@ pub fn run_child(ctx: &mut Ctx) {
         if fin.is_err() { api_errors += 1; any_api_error = true; }
         // ---- C14, upload-byte clause: the same history with byte counts (store ledger = what each successful put returned, the
         // length of every shard the store accepted), replayed through the byte-accounting layer of the model
-        let size_of = |h: &MerkleHash| g.put_sizes.get(h).copied().unwrap_or(0);
+        let size_of = |h: &MerkleHash| g.put_sizes.iter().find(|e| e.0 == *h).map(|e| e.1).unwrap_or(0);
         let last_sz = if last_ne { size_of(task_hash.last().unwrap()) } else { 0 };
         let shards_tok = if g.shard_log.is_empty() { "-".to_string() } else { g.shard_log.iter().map(|(l, ok)| format!("{}.{}", l, *ok as u8)).collect::<Vec<_>>().join("/") };
         let mut bt: Vec<String> = btrace.iter().map(|t| if let Some(id) = t.strip_prefix('R') { format!("r1:{}", size_of(&task_hash[id.parse::<usize>().unwrap()])) } else { t.clone() }).collect();
@@ -224,7 +224,7 @@ pub fn run_child(ctx: &mut Ctx) {
         let impl_bytes = match &fin { Ok(m) => format!("final=ok xorb={} shard={}", m.xorb_bytes_uploaded, m.shard_bytes_uploaded), Err(_) => "final=err xorb=none shard=none".to_string() };
         let breplay = format!("{{\"suite\":\"session_faults\",\"seed\":{},\"scenario\":{},\"trace\":\"{}\"}}", ctx.seed, sc, bt.join(","));
         if let Ok(m) = &fin {
-            let store_xorb: usize = g.put_sizes.values().sum();
+            let store_xorb: usize = g.put_sizes.iter().map(|e| e.1).sum();
             let store_shard: usize = g.shard_log.iter().filter(|x| x.1).map(|x| x.0).sum();
             if m.xorb_bytes_uploaded != store_xorb { ctx.fail("C14", "xorb-bytes-reported-differ-from-store", format!("finalize reported xorb_bytes_uploaded = {} but the store accepted {} bytes in {} puts (some still running when finalize was called: {})", m.xorb_bytes_uploaded, store_xorb, g.put_sizes.len(), pending.len() + last_ne as usize), breplay.clone()); }
             if m.shard_bytes_uploaded != store_shard { ctx.fail("C14", "shard-bytes-reported-differ-from-store", format!("finalize reported shard_bytes_uploaded = {} but the store accepted {} bytes in {} shards", m.shard_bytes_uploaded, store_shard, g.shard_log.len()), breplay.clone()); }
